@@ -279,6 +279,14 @@ def check_C11(tier: str, v: Verdict):
             # non-contiguous label values on either side
             pred = gen.relabel_random(rng, pred, 1, 12)
             ref = gen.relabel_random(rng, ref, 1, 12)
+        elif rng.random() < 0.2:
+            # label values up to the maximum of the dtype on either side (fresh labels of unmatched
+            # predictions then need a wider dtype - in one direction of the exchange, or in both)
+            pred = gen.relabel_random(rng, pred, 1, 255)
+            ref = gen.relabel_random(rng, ref, 1, 255)
+            for arr in ([ref] if rng.random() < 0.5 else [ref, pred]):
+                if arr.any():
+                    arr[arr == arr.max()] = 255
         cfg = rand_cfg(rng, matchers=("naive",), decisions=("NONE", "NONE", "IOU", "DSC", "ASSD"))
         cfg["gm"] = rng.choice([["DSC"], ["DSC", "IOU", "ASSD"], ["DSC", "IOU", "RVD", "ASSD"]])
         rec = rec_evaluate(pred, ref, cfg, meta={"gen": "random", "transform": "swap"})
